@@ -209,3 +209,57 @@ inst!(c08_reuse_kmp, 8, reuse_kmp::<2, 4, 3, 3>());
 inst!(c08_reuse_bom, 8, reuse_bom::<2, 4, 3, 3>());
 inst!(c08_bom_m1_n2_a2, 6, bom::<1, 2, 2>());
 inst!(c08_bom_m2_n3_a2, 6, bom::<2, 3, 2>());
+
+// ---- boundary lengths for the bit-parallel matchers: CONCRETE pattern (period-3 over {A,C}), symbolic text over {A,C}.
+// The 64-symbol limit is a property of the pattern's *shape*; keeping its content concrete lets CBMC constant-fold the
+// mask table so that the text scan at m = 63/64 stays tractable.
+pub fn fixed_pattern<const M: usize>() -> [u8; M] {
+    let mut p = [b'C'; M];
+    let mut i = 0;
+    while i < M {
+        if i % 3 == 0 {
+            p[i] = b'A';
+        }
+        i += 1;
+    }
+    p
+}
+#[cfg(kani)]
+pub fn text_ac<const N: usize>() -> [u8; N] {
+    let sel: [bool; N] = kani::any();
+    let mut t = [b'C'; N];
+    let mut i = 0;
+    while i < N {
+        if sel[i] {
+            t[i] = b'A';
+        }
+        i += 1;
+    }
+    t
+}
+#[cfg(kani)]
+pub fn shift_and_fixed<const M: usize, const N: usize>() {
+    let p = fixed_pattern::<M>();
+    let t = text_ac::<N>();
+    let m = ShiftAnd::new(p.iter());
+    let hits = expect_exact(&p, &t, m.find_all(t.iter()));
+    kani::cover!(hits >= 1, "an occurrence exists");
+    kani::cover!(hits == 0, "no occurrence");
+}
+#[cfg(kani)]
+pub fn bndm_fixed<const M: usize, const N: usize>() {
+    let p = fixed_pattern::<M>();
+    let t = text_ac::<N>();
+    let m = BNDM::new(p.iter());
+    let hits = expect_exact(&p, &t, m.find_all(&t[..]));
+    kani::cover!(hits >= 1, "an occurrence exists");
+    kani::cover!(hits == 0, "no occurrence");
+}
+inst!(c08_shiftand_fixed_m63_n64, 66, shift_and_fixed::<63, 64>());
+inst!(c08_shiftand_fixed_m64_n64, 66, shift_and_fixed::<64, 64>());
+inst!(c08_shiftand_fixed_m64_n65, 67, shift_and_fixed::<64, 65>());
+inst!(c08_shiftand_fixed_m64_n67, 69, shift_and_fixed::<64, 67>());
+inst!(c08_bndm_fixed_m63_n64, 66, bndm_fixed::<63, 64>());
+inst!(c08_bndm_fixed_m64_n64, 66, bndm_fixed::<64, 64>());
+inst!(c08_bndm_fixed_m64_n65, 67, bndm_fixed::<64, 65>());
+inst!(c08_bndm_fixed_m64_n67, 69, bndm_fixed::<64, 67>());
